@@ -46,6 +46,8 @@ def generate(rng, tier):
     nscripts = 400 if tier == "quick" else 12000
     for _ in range(nscripts):
         cases.append(gen_script(rng))
+    for _ in range(80 if tier == "quick" else 1500):
+        cases.append(gen_pending_move(rng))
     if tier == "thorough":
         cases.extend(exhaustive_scripts())
     return cases
@@ -64,10 +66,17 @@ def gen_script(rng):
         elif r < 0.84:
             cur_max += rng.randint(0, 3)
             ops.append(["set", cur_start, cur_max])
-        elif r < 0.93:
+        elif r < 0.90:
             cur_start = cur_max + rng.randint(0, 2)
             cur_max = cur_start + rng.randint(1, 4)
             ops.append(["set", cur_start, cur_max])
+        elif r < 0.95:
+            # a move below the pending (not yet consumed) extension: legal whenever the new
+            # minimum is not below what the current generator covers
+            a = rng.randint(cur_start + 1, cur_max + 1)
+            b = a + rng.randint(1, 6)
+            ops.append(["set", a, b])
+            cur_start, cur_max = a, b
         else:  # probably invalid: lower the max, overlapping move, empty range
             a = rng.randint(start - 1, cur_max + 1)
             b = a + rng.randint(-1, 3)
@@ -78,6 +87,24 @@ def gen_script(rng):
     if rng.random() < 0.5:
         ops.extend([["next"]] * (cur_max - start + 2))
     return {"kind": "script", "start": start, "stop": stop, "ops": ops,
+            "raw": [rng.randint(0, 10 ** 6) for _ in range(2 * (len(ops) + 2))]}
+
+
+def gen_pending_move(rng):
+    """extend while the first generator is still running (the extension stays pending), then
+    move to a range that lies inside / below the pending extension, then drain"""
+    start = rng.randint(-2, 4)
+    n = rng.randint(1, 4)
+    stop = start + n
+    big = stop + rng.randint(2, 8)
+    ops = [["next"]] * rng.randint(0, n)
+    ops = ops + [["set", start, big]] + [["next"]] * rng.randint(0, 2)
+    a = rng.randint(stop, big)
+    b = a + rng.randint(1, max(1, big - a))
+    ops = ops + [["set", a, b]] + [["next"]] * (b - a + 3)
+    if rng.random() < 0.4:
+        ops = ops + [["set", a, b + 2]] + [["next"]] * 4
+    return {"kind": "script", "start": start, "stop": stop, "ops": [list(o) for o in ops],
             "raw": [rng.randint(0, 10 ** 6) for _ in range(2 * (len(ops) + 2))]}
 
 
@@ -192,6 +219,7 @@ def oracle(case, obs):
         ti = 0
         ok = "ok" in obs
         extend_only = True
+        certain = True      # every operation so far is one the class must accept
         for op in case["ops"]:
             if ti >= len(trace) and op[0] == "next":
                 break
@@ -215,12 +243,15 @@ def oracle(case, obs):
                     else:
                         break  # rejected by the class (assert) — nothing more is specified
                 else:
-                    if b > a and a >= cur_max:
+                    certain = False
+                    if b > a:
+                        # if the class rejected the move the trace simply ends here; if it
+                        # accepted it, only values of [a, b) (and later extensions) may follow
                         chain_lo, cur_max, seen_in_chain = a, b, []
                     else:
                         break
         else:
-            if not ok:
+            if not ok and certain:
                 return f"script: a script of valid operations failed with {obs['err']}"
         return None
 
